@@ -11,6 +11,7 @@ import atexit
 import hashlib
 import json
 import os
+import re
 import shutil
 import subprocess
 import sys
@@ -418,6 +419,15 @@ def prelude_version(rel: str, text: str) -> str:
     """An earlier version of a module: other documentation texts, one more function, other defaults."""
     out = text.replace("Summary TK", "Earlier summary TK").replace("About TK", "Earlier text about TK").replace("Outcome TK", "Earlier outcome TK")
     out = out.replace("Module summary TK", "Earlier module summary TK").replace(" = 0)", " = 10)")
+    # ... every documentation text that carries a token, every integer default (so that members of private base classes,
+    # which other classes inline, differ between the two versions as well)
+    richer = re.sub(r'"""([A-Za-z][A-Za-z ]*?) (TK[A-Z][0-9]{4}Z)', r'"""Earlier \1 \2', out)
+    richer = re.sub(r"= ([0-9]+)([,)])", r"= 1\g<1>\2", richer)
+    try:
+        compile(richer, rel, "exec")
+        out = richer
+    except SyntaxError:
+        pass
     name = os.path.basename(rel)[:-3].strip("_") or "m"
     return out + f'\n\ndef only_in_earlier_version_{name}(q: int = 3) -> int:\n    """Only the earlier version has this function."""\n    return q\n'
 
